@@ -10,12 +10,12 @@
           error = ErrorFuture; task_ok / task_raise = AsyncTask of a trivial @asynq() body;
           task_susp = an AsyncTask that is suspended at a yield (blocked on a batch item) while the operations are
           applied to it by a sibling task, and whose generator raises when it is closed;
-          batch = a BatchBase subclass with one item, item = that item.
+          batch = a BatchBase subclass with one item, item = that item, batch0 = such a batch with no item at all.
    outcome: <<"none">>, <<"val", x>>, <<"err", x>>;  values and errors are small integers. *)
 EXTENDS Naturals, Sequences, FiniteSets, TLC, Json, IOUtils
 
 Depth == IF "DEPTH" \in DOMAIN IOEnv THEN atoi(IOEnv.DEPTH) ELSE 4
-Kinds == {"fut_ok", "fut_raise", "const", "error", "task_ok", "task_raise", "task_susp", "batch", "item"}
+Kinds == {"fut_ok", "fut_raise", "const", "error", "task_ok", "task_raise", "task_susp", "batch", "batch0", "item"}
 
 VARIABLES kind, outcome, epoch, runs, subs, notes, hist
 vars == <<kind, outcome, epoch, runs, subs, notes, hist>>
@@ -29,6 +29,7 @@ Natural(k) ==       \* the outcome the underlying computation produces
     [] k = "task_ok" -> <<"val", 5>>  [] k = "task_raise" -> <<"err", 7>>
     [] k = "task_susp" -> <<"val", 5>>
     [] k = "batch" -> <<"val", 0>>    [] k = "item" -> <<"val", 5>>
+    [] k = "batch0" -> <<"val", 0>>
 Born(k) == k \in {"const", "error"}              \* complete from construction
 Sinking(k) == k \in {"const", "error"}           \* on_computed is a sinking hook: there is no completion to announce
 
